@@ -172,9 +172,10 @@ def _replace_factors(factors: Dict[Dimension, List[Unit]]) -> RoughPlan:
                         break
 
         for dimension, unit, alternative in replacements:
+            # _splat files a unit under its own dimension when it is in the numerator
+            # and under the inverse dimension when it is in the denominator
             overall_sign = 1
-            if not unit.dimension.is_factor(dimension):
-                assert (unit**-1).dimension.is_factor(dimension)
+            if unit.dimension is not dimension:
                 overall_sign = -1
 
             ratio = _ratios[unit][alternative]
